@@ -147,7 +147,8 @@ def r3_forward_pc(ctx):
                 r.violation("write@%s/other-add" % short, "pc := %s" % sig(nf)[:160], where)
             elif sig(q.novers(nf)).endswith(".begin") and ("state" in sig(q.novers(nf)) or "loop_state" in sig(q.novers(nf))):
                 # loop-back
-                gates = [a for a in q.cmp_atoms(b) if a[1].startswith("Lt(0, ") and a[1].endswith(".iterations_left)")]
+                isgate = lambda c: (c.startswith("Lt(0, ") or c.startswith("Ne(0, ")) and c.endswith(".iterations_left)")   # unsigned: > 0 ⇔ != 0
+                gates = [a for a in q.pick_atoms(b, isgate) if isgate(a[1])]     # `left > 0` or `!(left == 0)` / `left <= 0` negated
                 r.check(len(gates) >= 1, "loopback/guard-present", "iterations_left > 0 is tested", "the loop-back is not guarded by iterations_left > 0", where)
                 if gates:
                     f = force(b, {g[0]: 0 for g in gates})
@@ -169,8 +170,9 @@ def r3_forward_pc(ctx):
     r.check(len(pushes) == 2, "loopback/state-kept", "loop state is pushed back", "pushes: %s" % pushes)
     # run_to_end: the only loop; bounded by pc < len
     rt = ctx.body(EX + "run_to_end", r)
-    conds = [a[1] for a in q.cmp_atoms(rt)]
-    r.check(conds == ["Lt($1.pc, Vec::len($1.instrs))"], "run/cond", "runs while pc < instrs.len()", "run_to_end loops on %s" % conds)
+    WANT = "Lt($1.pc, Vec::len($1.instrs))"
+    conds = [a[1] for a in q.pick_atoms(rt, lambda c: c == WANT)]
+    r.check(conds == [WANT], "run/cond", "runs while pc < instrs.len()", "run_to_end loops on %s" % conds)
 
 
 def r4_nesting(ctx):
